@@ -1273,7 +1273,21 @@ func (w *xworld) outputsOf(xf *xfile, fd *ast.FuncDecl) []xctor {
 			}
 		case *ast.ReturnStmt:
 			if returnsMsg && inLit == 0 && len(x.Results) >= 1 {
-				if id, ok := x.Results[0].(*ast.Ident); ok && id.Name == "nil" {
+				isNil := func(e ast.Expr) bool {
+					id, ok := e.(*ast.Ident)
+					return ok && id.Name == "nil"
+				}
+				// the error a handler returns travels to the caller as well (gRPC status message)
+				if len(x.Results) == 2 && !isNil(x.Results[1]) {
+					c := mk("return-error", x.Pos())
+					c.fields = []xfield{{"err", env.use(env.eval(x.Results[1]))}}
+					out = append(out, c)
+				} else if len(x.Results) == 1 && len(fd.Type.Results.List) == 2 {
+					c := mk("return-error", x.Pos())
+					c.fields = []xfield{{"err", env.use(env.evalIdx(x.Results[0], 1))}}
+					out = append(out, c)
+				}
+				if isNil(x.Results[0]) {
 					break
 				}
 				c := mk("return", x.Pos())
